@@ -39,7 +39,7 @@ def parseEntry (s : String) : Option (Name × Bytes) :=
   | _ => none
 
 def listing (fs : FS) : String :=
-  let l := (fs.map fun e => s!"{String.ofList e.1}={digest' e.2}").toArray.qsort (· < ·)
+  let l := (fs.names.map fun e => s!"{String.ofList e.1}={digest' (fs.data e.2)}").toArray.qsort (· < ·)
   " ".intercalate l.toList
 
 /-- What the loader of the store in question looks at. -/
@@ -52,7 +52,7 @@ def c20Handlers : List (String × Handler) := [
   -- c20prog <spec> [<name:hex>…] → the system-call program (in directory state fs, default empty)
   ("c20prog", fun (a : List String) => match a with
     | s :: ents => match ents.mapM parseEntry with
-      | some fs => match parseSpec fs s with
+      | some ents => match parseSpec (ofList ents) s with
         | some prog => " ".intercalate (prog.map showSys)
         | none => "bad-op"
       | none => "bad-op"
@@ -62,7 +62,8 @@ def c20Handlers : List (String × Handler) := [
     | s :: k :: vis :: ents =>
       match ents.mapM parseEntry with
       | none => "bad-op"
-      | some fs =>
+      | some ents =>
+      let fs := ofList ents
       match parseSpec fs s with
       | none => "bad-op"
       | some prog =>
